@@ -90,7 +90,21 @@ void h09a(void) {
     unsigned char before[FCAP];
     for(size_t i = 0; i < FCAP; i++) before[i] = vf_data0[i];
     comp_before = z->comp;
+#ifdef FAULTS
+    vf_fault_mode = 1;          /* C12: any read / lseek may fail or be short */
+#endif
     int r = nondet_bool() ? zck_find_valid_chunks(z) : zck_validate_checksums(z);
+#ifdef FAULTS
+    /* under faults only soundness is demanded: nothing is reported valid that is not */
+    OBLIGE(vf_nwrite[0] == 0 && vf_ntrunc[0] == 0, "C12/scan-never-writes");
+    for(size_t i = 0; i < NCH; i++) OBLIGE(s.t.c[i]->valid != 1 || s.match[i], "C12/chunk-marked-valid-only-if-its-bytes-are-there-and-match");
+    if(!z->header_only && r == 1) {
+        for(size_t i = 0; i < NCH; i++) OBLIGE(s.match[i], "C12/overall-success-only-if-every-chunk-matches");
+        OBLIGE(z->has_uncompressed_source || s.fullmatch, "C12/overall-success-only-if-the-data-digest-matches");
+    }
+    if(vf_faults > 0) WITNESS("h12v-with-faults"); else WITNESS("h12v-no-fault");
+    return;
+#else
     post_common(&s, before);
     OBLIGE(r != 0 && z->error_state == 0, "C09/scan-of-an-opened-file-does-not-error");
     if(r != 0) {
@@ -115,6 +129,7 @@ void h09a(void) {
         OBLIGE(z->check_full_hash.ctx != NULL && hm_ctx_len(z->check_full_hash.ctx) == 0, "C09/scan-leaves-a-fresh-running-data-digest");
         if(r == 1) WITNESS("h09a-allvalid"); else WITNESS("h09a-some-invalid");
     }
+#endif
 }
 #endif
 
@@ -126,7 +141,20 @@ void h09b(void) {
     unsigned char before[FCAP];
     for(size_t i = 0; i < FCAP; i++) before[i] = vf_data0[i];
     comp_before = z->comp;
+#ifdef FAULTS
+    vf_fault_mode = 1;
+#endif
     int r = zck_validate_data_checksum(z);
+#ifdef FAULTS
+    {
+        int complete_f = 1;
+        for(size_t i = 0; i < NCH; i++) if(!s.present[i]) complete_f = 0;
+        OBLIGE(r != 1 || (complete_f && s.fullmatch), "C12/data-digest-reported-valid-only-if-every-byte-is-there-and-the-digest-matches");
+        OBLIGE(vf_nwrite[0] == 0 && vf_ntrunc[0] == 0, "C12/validation-never-writes");
+        if(r == 1) WITNESS("h12d-valid"); else WITNESS("h12d-invalid");
+        return;
+    }
+#else
     post_common(&s, before);
     int complete = 1;
     for(size_t i = 0; i < NCH; i++) if(!s.present[i]) complete = 0;
@@ -138,5 +166,6 @@ void h09b(void) {
         OBLIGE(z->check_full_hash.ctx != NULL && hm_ctx_len(z->check_full_hash.ctx) == 0, "C09/data-validation-leaves-a-fresh-running-digest");
         if(r == 1) WITNESS("h09b-valid"); else WITNESS("h09b-invalid");
     }
+#endif
 }
 #endif
